@@ -259,7 +259,7 @@ func evalC06(e *Eval) {
 			}
 			if en.Iota {
 				for i, m := range exportedConsts(re) {
-					if v, ok := constant.Int64Val(m.Val()); !ok || v != int64(i) {
+					if v, ok := safeInt64(m.Val()); !ok || v != int64(i) {
 						_ = v
 					}
 				}
@@ -269,7 +269,7 @@ func evalC06(e *Eval) {
 					if !m.Const.Exported() {
 						continue
 					}
-					if v, ok := constant.Int64Val(m.Const.Val()); !ok || v != k {
+					if v, ok := safeInt64(m.Const.Val()); !ok || v != k {
 						e.Fail("enum-table", "index mapping on a non contiguous enum", fmt.Sprintf("%s: values are converted by position but member %s = %s is at position %d", tn, m.Const.Name(), m.Const.Val(), k))
 						break
 					}
@@ -370,4 +370,12 @@ func init() {
 			{Family: "F-enum", Synth: fam.Enum, Bound: map[string]int{"quick": 2, "thorough": 3}},
 		},
 	})
+}
+
+// safeInt64 is constant.Int64Val for any kind of constant (Int64Val panics unless the kind is Int).
+func safeInt64(v constant.Value) (int64, bool) {
+	if v.Kind() != constant.Int {
+		return 0, false
+	}
+	return constant.Int64Val(v)
 }
